@@ -1028,6 +1028,36 @@ class Builder:
             r = self._null_test(e, frame)
             if r is not None:
                 return r
+        if isinstance(e, ast.Compare) and len(e.ops) == 1 and \
+                isinstance(e.ops[0], (ast.Is, ast.IsNot)) and \
+                isinstance(e.left, ast.Name) and \
+                isinstance(e.comparators[0], ast.Constant) and \
+                e.comparators[0].value is None and \
+                e.left.id in frame.ctx.func.params and \
+                frame.parent is not None:
+            # `param is None` where this inlining site hands the parameter a
+            # display / a literal (or leaves it to its literal default):
+            # only one way to go
+            from .model import walk_own
+            nm = e.left.id
+            isnone = None
+            if not any(isinstance(x, ast.Name) and x.id == nm and
+                       isinstance(x.ctx, (ast.Store, ast.Del))
+                       for x in walk_own(frame.ctx.func.node)):
+                for k, v in frame.ctx.consts:
+                    if k == nm:
+                        isnone = v is None
+                ax = frame.arg_exprs.get(nm)
+                if isnone is None and ax is not None and \
+                        self._provably_object(ax[0]):
+                    isnone = False
+            if isnone is not None:
+                if not self.dangling:
+                    return [], []
+                n = self._emit('test', e, frame)
+                if isnone == isinstance(e.ops[0], ast.Is):
+                    return [(n, 'T')], []
+                return [], [(n, 'F')]
         if isinstance(e, ast.Name) and e.id in frame.ctx.func.params and \
                 frame.parent is not None:
             # a flag parameter whose literal value is known at this
